@@ -102,6 +102,11 @@ def raw_samples(rng, tier):
           1 << 64, -(1 << 64), (1 << 64) + 1, (1 << 120) + 5, -((1 << 128) - 1), 1 << 128]
     for _ in range(8 if tier == "quick" else 40): xs.append(rand_int(rng, 5))
     xs.append(abs(rand_int(rng, 50, False)) | (1 << 64 * 49)); xs.append(-(abs(rand_int(rng, 30, False)) | (1 << 64 * 20)))
+    # magnitudes whose byte count has a zero low byte (256, 512 bytes; thorough: 65536) and their neighbours, both signs:
+    # the 4-byte two's-complement size header then carries into its second byte
+    for nb in [255, 256, 257, 511, 512, 513] + ([65535, 65536, 65537] if tier != "quick" else []):
+        m = rng.getrandbits(8 * nb) | 1 << (8 * nb - 1)
+        xs += [m, -m]
     return xs
 
 def gen_raw(rng, tier):
